@@ -1,3 +1,4 @@
+import Liftbridge.Cmp
 /-
 C15 — authorisation skeletons of the gRPC handlers (server/api.go).
 
@@ -108,9 +109,13 @@ structure Outcome where
 /-- A path is acceptable for a denied request iff it refused (or there was no request). -/
 def Path.refusal (p : Path) : Bool := p.refused || p.noreq
 
-def run (pol : Policy) (cl : Client) (s : Stmt) : Outcome :=
-  let ps := paths (pol cl) s
+/-- Run a skeleton when the checks are answered by `allow` (whatever produces the answer:
+the policy alone, or the whole of `ensureAuthorizationPermission`, see `DTree`). -/
+def runWith (allow : Res → Act → Bool) (s : Stmt) : Outcome :=
+  let ps := paths allow s
   ⟨ps.flatMap (·.effects), ps.all Path.refusal⟩
+
+def run (pol : Policy) (cl : Client) (s : Stmt) : Outcome := runWith (pol cl) s
 
 /-- One RPC method. `act` is the action the documentation names for the method (the method
 name; `Publish` for the async publish loop), `res` the resource expression of the first
@@ -150,6 +155,147 @@ def Handler.checkedFirst (h : Handler) : Bool :=
 
 /-- The deny-all policy exhibits an effect or a non-refusal. -/
 def Handler.violates (h : Handler) : Bool := !safeUnder denyAll h.body
+
+-- ---------------------------------------------------------------- the check itself
+
+/-
+`ensureAuthorizationPermission` as a decision tree, REGENERATED from its syntax tree
+(`Gen.Handlers.ensureDecision`): every `if` of the function is an `ite` over one of the
+conditions below, every `return` a leaf. Nothing of the tree is written by hand; a
+flipped, added or removed early `return nil` changes the tree and with it the theorems
+`no_identity_never_allowed` / `allowed_iff_policy_entry` of Props/C15.lean.
+-/
+
+/-- What the function sees: the configuration switch, the value stored in the context
+under the client-id key (`none`: no value at all, or not a string — the `, ok` of the type
+assertion is false), and what `enforcePolicy` answers for (that id, resource, action). -/
+structure DIn where
+  enabled : Bool
+  ident : Option String
+  enfErr : Bool
+  enfOk : Bool
+  deriving Repr
+
+inductive DCond where
+  /-- `a.config.TLSClientAuthz` -/
+  | enabled
+  /-- the `ok` of `ctx.Value(key).(string)` -/
+  | hasID
+  /-- `clientID <op> ""` (equivalently `len(clientID) <op> 0`); an absent value reads as "" -/
+  | idVsEmpty (c : Cmp)
+  /-- `err != nil` for the error of `enforcePolicy` -/
+  | enfErr
+  /-- the boolean of `enforcePolicy` -/
+  | enfOk
+  deriving DecidableEq, Repr
+
+inductive DOut where
+  | allow
+  | refuse (why : String)
+  deriving DecidableEq, Repr
+
+inductive DTree where
+  | ret (o : DOut)
+  | ite (c : DCond) (t e : DTree)
+  /-- a statement the extractor could not classify (also reported as a lost decision point);
+  evaluates to `allow` so that no theorem can rest on it -/
+  | lost
+  deriving Repr
+
+def DCond.eval (i : DIn) : DCond → Bool
+  | .enabled => i.enabled
+  | .hasID => i.ident.isSome
+  | .idVsEmpty c => c.evalNat (i.ident.getD "").length 0
+  | .enfErr => i.enfErr
+  | .enfOk => i.enfOk
+
+def DTree.eval (i : DIn) : DTree → DOut
+  | .ret o => o
+  | .ite c t e => if c.eval i then t.eval i else e.eval i
+  | .lost => .allow
+
+def DOut.isAllow : DOut → Bool
+  | .allow => true
+  | .refuse _ => false
+
+/-- The same evaluation over the five bits the tree can depend on (the identity only
+matters through "is there one" and "is it non-empty"); `DTree.eval_bits` in
+Proofs/Authz.lean shows the two agree, which makes statements about ALL identities
+decidable by enumeration of 32 cases. -/
+def DCond.evalB (en hasId nonEmpty ee eo : Bool) : DCond → Bool
+  | .enabled => en
+  | .hasID => hasId
+  | .idVsEmpty c => c.evalNat (if hasId && nonEmpty then 1 else 0) 0
+  | .enfErr => ee
+  | .enfOk => eo
+
+def DTree.evalB (en hasId nonEmpty ee eo : Bool) : DTree → DOut
+  | .ret o => o
+  | .ite c t e => if c.evalB en hasId nonEmpty ee eo then t.evalB en hasId nonEmpty ee eo
+                  else e.evalB en hasId nonEmpty ee eo
+  | .lost => .allow
+
+-- ---------------------------------------------------------------- sessions (per-message loops)
+
+/-- One request of a streaming session: the stream it names and the policy in force at the
+moment the loop processes it (a reload between two messages gives them different policies). -/
+structure Msg where
+  stream : Res
+  pol : Policy
+
+/-- The answers the checks of ONE iteration get: the loop's resource expression
+(`req.Stream`) denotes the stream of the message of that iteration. -/
+def Msg.allow (resExpr : Res) (cl : Client) (m : Msg) : Res → Act → Bool :=
+  fun r a => m.pol cl (if r == resExpr then m.stream else r) a
+
+/-- What the loop did for one message: its position in the session, the effects executed
+for it and whether it was answered by a refusal. -/
+structure Did where
+  idx : Nat
+  effects : List String
+  refused : Bool
+  deriving DecidableEq, Repr
+
+/-- Every execution of a per-message loop with body `body` over the messages of ONE session
+(unbounded list): each message runs one syntactic path of the body under the policy in
+force for it; a `return` ends the session, anything else goes on with the next message. -/
+def sessions (resExpr : Res) (cl : Client) (body : Stmt) : Nat → List Msg → List (List Did)
+  | _, [] => [[]]
+  | i, m :: ms =>
+    (paths (m.allow resExpr cl) body).flatMap fun p =>
+      let d : Did := ⟨i, p.effects, p.refusal⟩
+      match p.exit with
+      | .ret _ => [[d]]
+      | _ => (sessions resExpr cl body (i + 1) ms).map (d :: ·)
+
+-- ---------------------------------------------------------------- shape of a per-message loop
+
+/-- no effect anywhere inside -/
+def effectFree : Stmt → Bool
+  | .effect _ => false
+  | .check _ _ d => effectFree d
+  | .seq a b => effectFree a && effectFree b
+  | .ite t e => effectFree t && effectFree e
+  | .loop _ b => effectFree b
+  | .call b => effectFree b
+  | _ => true
+
+/-- no check anywhere inside -/
+def checkFree (s : Stmt) : Bool := (keys s).isEmpty
+
+/-- The authorisation call of a loop body is executed UNCONDITIONALLY for every received
+message before any effect: walking the statement sequence of the body, everything before
+the first statement-level `check res act` is free of effects and of checks (so the check is
+not nested under any condition and nothing precedes it but the `Recv` error test), and its
+denial branch has no effect and never falls through to the rest of the body (`continue` /
+`return` on every path). -/
+def spineGuard (res : Res) (act : Act) : Stmt → Bool
+  | .check r a d =>
+    r == res && a == act && effectFree d && (paths denyAll d).all (fun p => p.exit != .fall && p.refusal)
+  | .seq (.check r a d) _ =>
+    r == res && a == act && effectFree d && (paths denyAll d).all (fun p => p.exit != .fall && p.refusal)
+  | .seq a b => effectFree a && checkFree a && spineGuard res act b
+  | _ => false
 
 -- ---------------------------------------------------------------- printing (driver)
 
